@@ -23,7 +23,8 @@ def parametric(rep, prog, rule):
         if f.kind == "closure":
             continue
         is_kernel = f.name.startswith(("convolution::", "alpha::")) or f.name.endswith("_typed") \
-            or f.name.startswith(("<pixels::", "threading::"))
+            or f.name.startswith(("<pixels::", "threading::")) \
+            or f.file == prog.file_now("src/threading.rs")
         if not is_kernel:
             continue
         n += 1
